@@ -58,6 +58,10 @@ def run(chk, ctx) -> None:
            'a single number, then any mapping (the abstract Mapping, tested before the generic iterable), then any iterable; anything else is an error',
            got=order + (['else'] if 'else' in arms else []), want=['Number', 'Mapping', 'Iterable', 'else'])
 
+    from .helpers import resolved_types
+    resolved_types(chk, ctx, 'C19.values', 'utilities', {'Number': 'numbers.Number', 'Mapping': 'collections.abc.Mapping',
+                                                         'Iterable': 'collections.abc.Iterable'})
+
     def returned(ps):
         out = []
         for p in ps:
